@@ -25,12 +25,19 @@
      holds what the target memory of the two-memory run holds inside the target element and
      what its source memory holds elsewhere (C11_same_vector_runs_are_the_glued_two_vector_runs);
      hence C11_same_vector_assignment, C11_same_vector_move_assignment, C11_same_vector_swap.
-   PARTIAL: self-assignment / self-swap (i = j) and the permuting algorithms (compositions of
-   these steps through libstdc++) are modelled as written and decided by the correspondence
+   * at the level of the abstract list (RefUpdate.v): in every represented state - what every
+     valid history reaches (C01) - `v[i] = v[j]` (i <> j, equal field sizes) represents the list
+     with element i replaced by element j, and swap(v[i], v[j]) the list with the two
+     exchanged, at the same offsets: no other element and no bookkeeping changes
+     (C11_assignment_through_references_updates_the_list, C11_swap_through_references_exchanges).
+   * self-assignment (copy and move form) and self-swap of an element change no byte, whatever
+     the field table and run table (C11_self_assignment_changes_nothing); the represented
+     list is unchanged (C11_self_assignment_keeps_the_list).
+   PARTIAL: the permuting algorithms (compositions of these steps through libstdc++) are modelled as written and decided by the correspondence
    check and its content oracle (DESIGN.md, C11); in the model all access paths are the same
    function. *)
 From Coq Require Import ZArith List Bool Lia.
-From Cntgs Require Import Base Layout Mem Vector Proxy World Spec Rep CompareThm RunsThm ElemThm CmpContent AssignThm SwapThm MoveThm SameVec.
+From Cntgs Require Import Base Layout Mem Vector Proxy World Spec Rep CompareThm RunsThm ElemThm CmpContent AssignThm SwapThm MoveThm SameVec CompareThm RefUpdate.
 Import ListNotations.
 Local Open Scope Z_scope.
 
@@ -211,3 +218,47 @@ Example C11_same_vector_example :
                           {| m_s := m0; m_d := m0; m_same := true |} (seq 0 (length L))) in
   elem_at L (m_d x') 0 t1 /\ elem_at L (m_d x') 16 t0 /\ m_d x' 7 = 170 /\ m_d x' 23 = 170.
 Proof. vm_compute. repeat split; reflexivity. Qed.
+
+(* ---------- and at the level of the represented list ---------- *)
+Theorem C11_assignment_through_references_updates_the_list : forall L, wf_plist L = true ->
+  forall v l offs, RepO L v l offs ->
+  forall i j, (i < length l)%nat -> (j < length l)%nat -> i <> j ->
+  cnts_of (nth i l []) = cnts_of (nth j l []) ->
+  let r := ref_assign false L true v (Z.of_nat i) v (Z.of_nat j) in
+  RepO L (fst (fst r)) (upd i (nth j l []) l) offs /\
+  (forall a, v_mem (snd (fst r)) a = v_mem (fst (fst r)) a).
+Proof. exact ref_assign_refines_update. Qed.
+Print Assumptions C11_assignment_through_references_updates_the_list.
+
+Theorem C11_swap_through_references_exchanges : forall L, wf_plist L = true ->
+  forall v l offs, RepO L v l offs ->
+  forall i j, (i < length l)%nat -> (j < length l)%nat -> i <> j ->
+  cnts_of (nth i l []) = cnts_of (nth j l []) ->
+  let r := ref_swap L true v (Z.of_nat i) v (Z.of_nat j) in
+  RepO L (fst (fst r)) (upd i (nth j l []) (upd j (nth i l []) l)) offs /\
+  (forall a, v_mem (snd (fst r)) a = v_mem (fst (fst r)) a).
+Proof. exact ref_swap_refines_exchange. Qed.
+Print Assumptions C11_swap_through_references_exchanges.
+
+(* ---------- self-assignment and self-swap ---------- *)
+Theorem C11_self_assignment_changes_nothing : forall L sb db fl m ks,
+  (forall mv, let x' := fst (assign_all mv L sb db fl fl {| m_s := m; m_d := m; m_same := true |} ks) in
+              (forall z, m_s x' z = m z) /\ (forall z, m_d x' z = m z)) /\
+  (let x' := fst (swap_all L sb db fl fl {| m_s := m; m_d := m; m_same := true |} ks) in
+   (forall z, m_s x' z = m z) /\ (forall z, m_d x' z = m z)).
+Proof.
+  intros L sb db fl m ks. split.
+  - intros mv. exact (self_assignment_changes_nothing mv L sb db fl m ks).
+  - exact (self_swap_changes_nothing L sb db fl m ks).
+Qed.
+Print Assumptions C11_self_assignment_changes_nothing.
+
+Theorem C11_self_assignment_keeps_the_list : forall L, wf_plist L = true -> forall v l offs i, RepO L v l offs ->
+  (forall mv, let r := ref_assign mv L true v i v i in RepO L (fst (fst r)) l offs /\ RepO L (snd (fst r)) l offs) /\
+  (let r := ref_swap L true v i v i in RepO L (fst (fst r)) l offs /\ RepO L (snd (fst r)) l offs).
+Proof.
+  intros L Hwf v l offs i R. split.
+  - intros mv. exact (self_assign_refines_identity L Hwf v l offs i mv R).
+  - exact (self_swap_refines_identity L Hwf v l offs i R).
+Qed.
+Print Assumptions C11_self_assignment_keeps_the_list.
